@@ -129,6 +129,7 @@ class n0xml:
 
     def __str__(self) -> str:
         # return str(self.ordered_items)
+        from n0struct.n0struct_logging import n0pretty  # imported here: the module is also used stand-alone (see test_n0struct10)
         return n0pretty(self.ordered_items)
 
     def __getitem__(self, index: typing.Union[int, str]) -> typing.Any:
